@@ -259,16 +259,29 @@ def scan_dask(rel, pred):
         return specs
 
     def do_func(path, fn):
-        chunks = []  # (lineno, specs)
+        chunks = []  # (lineno, specs); a `.chunk(…)` counts only when it is executed unconditionally: in a simple top-level
+        # statement of the function or inside the arguments of the apply_ufunc call itself; one nested under if / for / while /
+        # try / with is recorded with the value text prefixed by "cond:" (it then covers nothing)
         calls = []
+        uncond = set()
+        for st in fn.body:
+            if not isinstance(st, (ast.If, ast.For, ast.While, ast.Try, ast.With, ast.FunctionDef, ast.Match)):
+                for n in ast.walk(st):
+                    uncond.add(id(n))
+        for n in ast.walk(fn):
+            if isinstance(n, ast.Call) and ast.unparse(n.func).endswith("apply_ufunc"):
+                calls.append(n)
+                for k in ast.walk(n):
+                    uncond.add(id(k))
         for n in ast.walk(fn):
             if isinstance(n, ast.Call) and isinstance(n.func, ast.Attribute) and n.func.attr == "chunk":
                 try:
-                    chunks.append((n.lineno, chunk_specs(n)))
+                    sp = chunk_specs(n)
                 except Untranslatable:
-                    chunks.append((n.lineno, [("?", "?")]))
-            if isinstance(n, ast.Call) and ast.unparse(n.func).endswith("apply_ufunc"):
-                calls.append(n)
+                    sp = [("?", "?")]
+                if id(n) not in uncond:
+                    sp = [(d, "cond:" + v) for d, v in sp]
+                chunks.append((n.lineno, sp))
         for c in calls:
             kw = {k.arg: k.value for k in c.keywords}
             ins = [resolve_dim_expr(x, {}) for x in kw["input_core_dims"].elts]
